@@ -76,7 +76,11 @@ class C15(Prop):
         fs = SimFS(policy=Policy.from_json(b.get("policy")))
         with fs:
             if b["kind"] == "read":
-                las = C13PROP.build_read_base(sc, Result(), fs)
+                r0 = Result()
+                las = C13PROP.build_read_base(sc, r0, fs)
+                if las is None:
+                    res.violate("C15.read-raised", r0.violations[0]["msg"] if r0.violations else "reading the generated file failed")
+                    return res
                 m = SectionMachine({"kind": "bare", "transforms": b["transforms"]}, res, check13=False, check15=True)
                 m.las = las
                 m.kind = b["section"]
